@@ -122,6 +122,16 @@ pub(crate) fn accept_target_os(attrs: &[Attribute], target_os: &[String]) -> boo
     !is_rejected() && is_accepted()
 }
 
+/// Exposes `accept_target_os` to the external verification harness.
+/// Compiled only with `--cfg typeshare_verif`.
+#[cfg(typeshare_verif)]
+pub mod verif_hooks {
+    /// `accept_target_os` on an arbitrary attribute list.
+    pub fn accept_target_os(attrs: &[syn::Attribute], target_os: &[String]) -> bool {
+        super::accept_target_os(attrs, target_os)
+    }
+}
+
 #[cfg(test)]
 mod test {
     use super::accept_target_os;
